@@ -58,15 +58,16 @@ Lemma base_sublist A max (l : list (Z * A)) : Sublist (base_sanitize max l) l.
 Proof. apply klm_sublist. Qed.
 
 (* ---------- T2: POD = sublist of a rotation of the base result ---------- *)
+Definition pod_base A max (l : list (Z * A)) := filter (nonzero A) (base_sanitize max l).
+
+Lemma pod_base_sublist A max (l : list (Z * A)) : Sublist (pod_base A max l) l.
+Proof. unfold pod_base. eapply sublist_trans; [apply filter_sublist|apply base_sublist]. Qed.
+
 Lemma pod_rotation A max (l : list (Z * A)) out : pod_sanitize max l = Some out ->
-  exists k, Sublist out (skipn k (base_sanitize max l) ++ firstn k (base_sanitize max l)).
+  exists k, out = skipn k (pod_base A max l) ++ firstn k (pod_base A max l) \/ out = skipn k (pod_base A max l).
 Proof.
-  unfold pod_sanitize. destruct (base_sanitize max l) as [|first b] eqn:Hb; [discriminate|].
-  cbv zeta. intros H. injection H as <-.
-  eexists.
-  destruct (fst first =? _).
-  - apply filter_sublist.
-  - eapply sublist_trans; [apply filter_sublist|]. apply sublist_app_l.
+  unfold pod_sanitize. fold (pod_base A max l). destruct (pod_base A max l) as [|first b] eqn:Hb; [discriminate|].
+  cbv zeta. intros H. injection H as <-. eexists. destruct (fst first =? _); [left|right]; reflexivity.
 Qed.
 
 (* ---------- T3: range ---------- *)
@@ -85,14 +86,93 @@ Qed.
 
 Lemma pod_range A max (l : list (Z * A)) out r : pod_sanitize max l = Some out -> In r out -> 1 <= fst r < max.
 Proof.
-  unfold pod_sanitize. destruct (base_sanitize max l) as [|first b] eqn:Hb; [discriminate|].
-  cbv zeta. intros H Hin. injection H as <-.
-  apply filter_In in Hin. destruct Hin as [Hin Hnz].
-  assert (Hb' : In r (base_sanitize max l)).
-  { rewrite Hb. destruct (fst first =? _) in Hin.
-    - eapply in_rot. exact Hin.
-    - eapply sublist_In; [apply skipn_sublist|exact Hin]. }
-  apply base_range in Hb'. apply negb_true_iff in Hnz. apply Z.eqb_neq in Hnz. lia.
+  intros H Hin. destruct (pod_rotation A max l out H) as [k [-> | ->]].
+  - apply in_rot in Hin. unfold pod_base in Hin. apply filter_In in Hin. destruct Hin as [Hb Hnz].
+    apply base_range in Hb. unfold nonzero in Hnz. apply negb_true_iff in Hnz. apply Z.eqb_neq in Hnz. lia.
+  - apply (sublist_In _ _ _ (skipn_sublist k _)) in Hin. unfold pod_base in Hin. apply filter_In in Hin. destruct Hin as [Hb Hnz].
+    apply base_range in Hb. unfold nonzero in Hnz. apply negb_true_iff in Hnz. apply Z.eqb_neq in Hnz. lia.
+Qed.
+
+(* the lowest number comes first *)
+Lemma list_min_acc_le_a : forall l a, fold_left Z.min l a <= a.
+Proof. induction l as [|y l IH]; intros a; simpl; [lia|]. eapply Z.le_trans; [apply IH|]. lia. Qed.
+
+Lemma list_min_acc_le : forall l a x, In x l -> fold_left Z.min l a <= x.
+Proof.
+  induction l as [|y l IH]; intros a x H; [destruct H|]. simpl. destruct H as [->|H].
+  - eapply Z.le_trans; [apply list_min_acc_le_a|]. lia.
+  - apply IH. assumption.
+Qed.
+
+Lemma list_min_acc_in : forall l a, fold_left Z.min l a = a \/ In (fold_left Z.min l a) l.
+Proof.
+  induction l as [|y l IH]; intros a; simpl; [left; reflexivity|].
+  destruct (IH (Z.min a y)) as [H|H].
+  - rewrite H. destruct (Z.min_spec a y) as [[_ E]|[_ E]]; rewrite E; auto.
+  - right. right. assumption.
+Qed.
+
+Lemma list_min_in x l : In (list_min (x :: l)) (x :: l).
+Proof. unfold list_min. simpl. destruct (list_min_acc_in l (Z.min x x)) as [H|H]; [rewrite H, Z.min_id; left; reflexivity|right; assumption]. Qed.
+
+Lemma list_min_le x l y : In y (x :: l) -> list_min (x :: l) <= y.
+Proof.
+  unfold list_min. simpl. intros [->|H].
+  - eapply Z.le_trans; [apply list_min_acc_le_a|]. lia.
+  - apply list_min_acc_le. assumption.
+Qed.
+
+Lemma nth_index_of m : forall ns, In m ns -> nth (index_of m ns) ns 0 = m.
+Proof.
+  induction ns as [|x ns IH]; intros H; [destruct H|]. simpl. destruct (Z.eqb_spec x m) as [->|Hne]; [reflexivity|].
+  destruct H as [->|H]; [congruence|]. apply IH. assumption.
+Qed.
+
+Lemma index_of_lt m : forall ns, In m ns -> (index_of m ns < length ns)%nat.
+Proof.
+  induction ns as [|x ns IH]; intros H; [destruct H|]. simpl. destruct (Z.eqb_spec x m); [lia|].
+  destruct H as [->|H]; [congruence|]. specialize (IH H). lia.
+Qed.
+
+Lemma hd_skipn_nth {B} (l : list B) d : forall k, (k < length l)%nat -> hd d (skipn k l) = nth k l d.
+Proof. induction l as [|x l IH]; intros k H; [simpl in H; lia|]. destruct k; simpl; [reflexivity|]. apply IH. simpl in H. lia. Qed.
+
+Lemma skipn_nth_cons {B} (l : list B) d : forall k, (k < length l)%nat -> exists rest, skipn k l = nth k l d :: rest.
+Proof.
+  induction l as [|x l IH]; intros k Hk; [simpl in Hk; lia|].
+  destruct k; simpl; [eexists; reflexivity|]. apply IH. simpl in Hk. lia.
+Qed.
+
+Theorem pod_lowest_first A max (l : list (Z * A)) out : pod_sanitize max l = Some out ->
+  exists r rest, out = r :: rest /\ forall x, In x out -> fst r <= fst x.
+Proof.
+  unfold pod_sanitize. fold (pod_base A max l).
+  assert (Hpos : forall x, In x (pod_base A max l) -> 1 <= fst x).
+  { intros x Hx. unfold pod_base in Hx. apply filter_In in Hx. destruct Hx as [Hb Hnz]. apply base_range in Hb.
+    unfold nonzero in Hnz. apply negb_true_iff in Hnz. apply Z.eqb_neq in Hnz. lia. }
+  destruct (pod_base A max l) as [|first b] eqn:Hb; [discriminate|]. cbv zeta. intros H.
+  set (bb := first :: b) in *. set (ns := map fst bb).
+  assert (Habs : map Z.abs ns = ns).
+  { unfold ns. rewrite map_map. apply map_ext_in. intros x Hx. apply Z.abs_eq. specialize (Hpos x Hx). lia. }
+  pose proof (f_equal (fun o : option (list (Z * A)) => match o with Some v => v | None => out end) H) as Hout.
+  cbv beta iota in Hout. fold ns in Hout. rewrite Habs in Hout.
+  clear H. subst out. set (mn := list_min ns).
+  assert (Hin : In mn ns) by (unfold mn, ns, bb; simpl; apply list_min_in).
+  assert (Hle : forall y, In y ns -> mn <= y) by (intros y Hy; unfold mn, ns, bb in *; simpl in *; apply list_min_le; assumption).
+  set (k := index_of mn ns).
+  assert (Hk : (k < length bb)%nat) by (unfold k; rewrite <- (map_length fst bb); apply index_of_lt; assumption).
+  assert (Hnth : fst (nth k bb first) = mn).
+  { rewrite <- (map_nth fst bb first k). fold ns.
+    rewrite (nth_indep ns (fst first) 0) by (unfold ns; rewrite map_length; exact Hk).
+    unfold k. apply nth_index_of. exact Hin. }
+  assert (Hsk : exists rest, skipn k bb = nth k bb first :: rest) by (apply skipn_nth_cons; exact Hk).
+  destruct Hsk as [rest Hrest].
+  assert (Hall : forall x, In x bb -> mn <= fst x) by (intros x Hx; apply Hle; unfold ns; apply in_map; assumption).
+  destruct (fst first =? _).
+  - exists (nth k bb first), (rest ++ firstn k bb). fold k. rewrite Hrest. split; [reflexivity|].
+    intros x Hx. rewrite Hnth. apply Hall. apply (in_rot k bb x). rewrite Hrest. exact Hx.
+  - exists (nth k bb first), rest. fold k. split; [exact Hrest|].
+    intros x Hx. rewrite Hnth. apply Hall. eapply sublist_In; [apply (skipn_sublist k)|exact Hx].
 Qed.
 
 (* ---------- the fixed-threshold analysis ---------- *)
@@ -191,19 +271,6 @@ Proof.
   { apply gapfree_corrupt. replace (first - 1 + 1) with first by lia. assumption. }
   rewrite (base_exact_500 A max first l Hr) by (rewrite Hc; destruct l; simpl; [congruence|lia]).
   rewrite gapfree_keep500 by assumption. apply filter_by_same_len. apply map_length.
-Qed.
-
-(* POD: when the first surviving record carries the lowest |number|, nothing is rotated or dropped *)
-Lemma pod_min_first A max (l : list (Z * A)) first b :
-  base_sanitize max l = first :: b ->
-  fst first = list_min (map Z.abs (map fst (first :: b))) ->
-  pod_sanitize max l = Some (filter (fun r => negb (fst r =? 0)) (first :: b)).
-Proof.
-  intros Hb Hmin. unfold pod_sanitize. rewrite Hb.
-  assert (Hk : index_of (list_min (map Z.abs (map fst (first :: b)))) (map fst (first :: b)) = 0%nat).
-  { rewrite <- Hmin. simpl. rewrite Z.eqb_refl. reflexivity. }
-  rewrite Hk. simpl skipn. simpl firstn. rewrite app_nil_r.
-  destruct (fst first =? _); reflexivity.
 Qed.
 
 (* the minority hypothesis is needed: two of three entries off by 699 -> the intact record is the one removed *)
